@@ -359,6 +359,9 @@ func execAsm(c asmCase) asmRun {
 				res = "ok"
 				if o.kind == 'L' {
 					res = "ok " + strconv.FormatUint(uint64(pc), 16)
+					if old, dup := s.labels[o.label]; dup {
+						complain("C06", fmt.Sprintf("label %q defined at %x was accepted again at %x: its references have no unique target", o.label, old, pc))
+					}
 					s.labels[o.label] = pc
 				}
 				if o.kind == 'I' {
